@@ -1,0 +1,103 @@
+//! Verification hooks.  Compiled only with `--cfg similar_verif`.
+//!
+//! * a virtual clock: when installed, `deadline_exceeded(Some(_))` answers
+//!   from a thread-local probe counter instead of the wall clock;
+//! * a swap-repair switch for the compaction step, used only to attribute a
+//!   failing case to the known stale-carried-index finding.
+#![allow(missing_docs)]
+
+use std::cell::Cell;
+
+use crate::DiffOp;
+
+thread_local! {
+    static CLOCK_ON: Cell<bool> = Cell::new(false);
+    static PROBES: Cell<u64> = Cell::new(0);
+    static EXPIRE_AT: Cell<Option<u64>> = Cell::new(None);
+    static REPAIR_SWAP: Cell<bool> = Cell::new(false);
+}
+
+/// Installs the virtual clock on this thread.  The probe with 0-based index
+/// `i` answers `expire_at.map_or(false, |k| i >= k)`.
+pub fn clock_install(expire_at: Option<u64>) {
+    CLOCK_ON.with(|c| c.set(true));
+    PROBES.with(|c| c.set(0));
+    EXPIRE_AT.with(|c| c.set(expire_at));
+}
+
+/// Removes the virtual clock from this thread and returns the probe count.
+pub fn clock_remove() -> u64 {
+    CLOCK_ON.with(|c| c.set(false));
+    PROBES.with(|c| c.get())
+}
+
+/// Number of deadline probes answered so far.
+pub fn clock_probes() -> u64 {
+    PROBES.with(|c| c.get())
+}
+
+pub(crate) fn clock_probe() -> Option<bool> {
+    if !CLOCK_ON.with(|c| c.get()) {
+        return None;
+    }
+    let i = PROBES.with(|c| {
+        let i = c.get();
+        c.set(i + 1);
+        i
+    });
+    Some(EXPIRE_AT.with(|c| c.get()).map_or(false, |k| i >= k))
+}
+
+/// Turns the swap repair on or off on this thread (off by default).
+pub fn set_repair_swap(on: bool) {
+    REPAIR_SWAP.with(|c| c.set(on));
+}
+
+/// After `ops.swap(idx, idx + 1)` of a Delete and an Insert: recompute the
+/// carried indices of the two ops if the switch is on.
+pub(crate) fn repair_swapped(ops: &mut [DiffOp], idx: usize) {
+    if !REPAIR_SWAP.with(|c| c.get()) {
+        return;
+    }
+    match (ops[idx], ops[idx + 1]) {
+        (
+            DiffOp::Insert {
+                new_index, new_len, ..
+            },
+            DiffOp::Delete {
+                old_index, old_len, ..
+            },
+        ) => {
+            ops[idx] = DiffOp::Insert {
+                old_index,
+                new_index,
+                new_len,
+            };
+            ops[idx + 1] = DiffOp::Delete {
+                old_index,
+                old_len,
+                new_index: new_index + new_len,
+            };
+        }
+        (
+            DiffOp::Delete {
+                old_index, old_len, ..
+            },
+            DiffOp::Insert {
+                new_index, new_len, ..
+            },
+        ) => {
+            ops[idx] = DiffOp::Delete {
+                old_index,
+                old_len,
+                new_index,
+            };
+            ops[idx + 1] = DiffOp::Insert {
+                old_index: old_index + old_len,
+                new_index,
+                new_len,
+            };
+        }
+        _ => {}
+    }
+}
